@@ -94,6 +94,114 @@ func (c *c15Cli) eofSeen() bool {
 	return c.eof
 }
 
+// c15Store is the session storage of the harness brokers: the in-memory semantics of the package's mock storage
+// (a delete always notifies the delete-watch, if one is established) plus one-shot faults of a real store: a put
+// or a prefix listing that fails, a watch that is lost (channel closed) and whose re-establishment can be held back.
+type c15Store struct {
+	mu        sync.Mutex
+	kv        map[string]string
+	watchCh   chan map[string]*string // nil while no watch is established
+	failPut   int
+	failList  int
+	holdWatch chan struct{} // when set, the next watchDelete call waits for it
+	arrived   chan struct{} // closed when that held call has arrived
+}
+
+func c15NewStore() *c15Store { return &c15Store{kv: map[string]string{}} }
+
+func (s *c15Store) get(key string) (*string, error) {
+	s.mu.Lock()
+	defer s.mu.Unlock()
+	if v, ok := s.kv[key]; ok {
+		return &v, nil
+	}
+	return nil, fmt.Errorf("verif: key not found")
+}
+
+func (s *c15Store) getPrefix(prefix string, keysOnly bool) (map[string]string, error) {
+	s.mu.Lock()
+	defer s.mu.Unlock()
+	if s.failList > 0 {
+		s.failList--
+		return nil, fmt.Errorf("verif: injected listing error")
+	}
+	out := map[string]string{}
+	for k, v := range s.kv {
+		if strings.HasPrefix(k, prefix) {
+			if keysOnly {
+				v = ""
+			}
+			out[k] = v
+		}
+	}
+	return out, nil
+}
+
+func (s *c15Store) put(key, value string) error {
+	s.mu.Lock()
+	defer s.mu.Unlock()
+	if s.failPut > 0 {
+		s.failPut--
+		return fmt.Errorf("verif: injected write error")
+	}
+	s.kv[key] = value
+	return nil
+}
+
+func (s *c15Store) delete(key string) error {
+	s.mu.Lock()
+	defer s.mu.Unlock()
+	delete(s.kv, key)
+	if ch := s.watchCh; ch != nil {
+		go func() { ch <- map[string]*string{key: nil} }()
+	}
+	return nil
+}
+
+func (s *c15Store) watchDelete(prefix string) (<-chan map[string]*string, func(), error) {
+	s.mu.Lock()
+	hold, arrived := s.holdWatch, s.arrived
+	s.holdWatch, s.arrived = nil, nil
+	s.mu.Unlock()
+	if hold != nil {
+		close(arrived)
+		<-hold
+	}
+	s.mu.Lock()
+	defer s.mu.Unlock()
+	s.watchCh = make(chan map[string]*string)
+	return s.watchCh, func() {}, nil
+}
+
+// loseWatch closes the established watch (the broker will try to re-establish it) and holds the re-watch back;
+// the returned functions wait until the broker's re-watch attempt has arrived / let it proceed.
+func (s *c15Store) loseWatch() (arrived func() bool, release func()) {
+	s.mu.Lock()
+	hold, arr := make(chan struct{}), make(chan struct{})
+	s.holdWatch, s.arrived = hold, arr
+	ch := s.watchCh
+	s.watchCh = nil
+	s.mu.Unlock()
+	if ch != nil {
+		close(ch)
+	}
+	released := false
+	return func() bool {
+			select {
+			case <-arr:
+				return true
+			case <-time.After(c15Wait()):
+				c15Timeouts++
+				return false
+			}
+		}, func() {
+			if !released {
+				released = true
+				close(hold)
+			}
+		}
+}
+
 // c15Will is the will message of a CONNECT; the recording publish pipeline decides by the first payload byte.
 type c15Will struct {
 	Topic   string `json:"topic"`
@@ -268,6 +376,7 @@ type c15Env struct {
 	pipe  *c15Pipe
 	gate  *c15Gate
 	store storage
+	fs    *c15Store // the same storage, with its fault switches
 	// how the lookup of the other cluster members behaves (Broker.memberURL): "" none, "err" fails,
 	// "dead" one member nobody listens at
 	memberMode string
@@ -289,7 +398,8 @@ func c15NewEnv(withPipe bool, publishLimit *RateLimit) *c15Env {
 		mapper.pipe = env.pipe
 		spec.Rules = append(spec.Rules, &Rule{When: &When{PacketType: Publish}, Pipeline: "c15-publish"})
 	}
-	env.store = newStorage(nil)
+	env.fs = c15NewStore()
+	env.store = env.fs
 	env.b = newBroker(spec, env.store, mapper, func(string, string) ([]string, error) {
 		switch env.memberMode {
 		case "err":
@@ -329,7 +439,7 @@ func (e *c15Env) closeInto(bad *[]string) {
 
 // ---------------------------------------------------------------- quiescence
 
-var c15BrokerFrame = regexp.MustCompile(`mqttproxy\.\(\*(Broker|Client|Session|SessionManager|mockStorage|TopicManager)\)\.`)
+var c15BrokerFrame = regexp.MustCompile(`mqttproxy\.\(\*(Broker|Client|Session|SessionManager|mockStorage|c15Store|TopicManager)\)\.`)
 
 type c15Dump struct {
 	conns   int // goroutines inside (*Broker).handleConn
